@@ -122,27 +122,31 @@ def run(ctx, rep):
                         continue
                     f_up.add(f"({C.cnat(code)}, {C.cq(u)}, {ql(Sv)}, {ql(df)}, {C.cq(out)})", case)
     kinds = ["SHADE", "SHAGA", "jDE"] * ctx.pick(5, 40)
-    for kind in kinds:
+    for run_i, kind in enumerate(kinds):
         seed = ctx.rng.randrange(1 << 30)
         pop = ctx.rng.randint(4, 12)
         iters = ctx.rng.randint(pop + 1, pop + 4) if ctx.rng.random() < 0.4 else ctx.rng.randint(3, 7)   # wrap-around
-        obj = L.Objective(ctx.rng.choice(["onemax", "plateau", "const", "weighted", "minx"]))
+        obj = L.Objective(["onemax", "weighted", "minx", "plateau", "const"][(run_i // 3) % 5])   # every (kind, direction, objective) combination over 10 triples
         rec = []
-        cfg = dict(kind=kind, seed=seed, pop=pop, iters=iters, objective=obj.kind)
+        mini = (run_i // 3) % 2 == 1          # every kind is run in both optimisation directions, alternating
+        cfg = dict(kind=kind, seed=seed, pop=pop, iters=iters, objective=obj.kind, minimization=mini)
+        rep.hist("minimization", mini)
         with L.log_mode():
             if kind == "SHAGA":
                 n = ctx.rng.randint(4, 10)
                 cfg["str_len"] = n
-                opt = O.SHAGA(obj, iters=iters, pop_size=pop, str_len=n, random_state=seed)
+                opt = O.SHAGA(obj, iters=iters, pop_size=pop, str_len=n, random_state=seed, minimization=mini)
                 A, B, genname = "_H_MR", "_H_CR", "_generate_MR_CR"
             elif kind == "SHADE":
-                opt = O.SHADE(obj, iters=iters, pop_size=pop, left_border=-2.0, right_border=2.0, num_variables=2, random_state=seed)
+                opt = O.SHADE(obj, iters=iters, pop_size=pop, left_border=-2.0, right_border=2.0, num_variables=2, random_state=seed, minimization=mini)
                 A, B, genname = "_H_F", "_H_CR", "_generate_F_CR"
             else:
-                fmin, fmax, tF, tCR = ctx.rng.choice([0.1, 0.25]), ctx.rng.choice([0.9, 0.5]), ctx.rng.choice([0.1, 0.5, 1.0]), ctx.rng.choice([0.1, 0.5])
+                # F_max is the SPAN (F in [F_min, F_min + F_max]); F_max < F_min is admissible
+                fmin, fmax = ctx.rng.choice([0.1, 0.25, 0.5, 0.625]), ctx.rng.choice([0.9, 0.5, 0.375, 0.25])
+                tF, tCR = ctx.rng.choice([0.1, 0.5, 1.0]), ctx.rng.choice([0.1, 0.5])
                 cfg.update(F_min=fmin, F_max=fmax, t_F=tF, t_CR=tCR)
                 opt = O.jDE(obj, iters=iters, pop_size=pop, left_border=-2.0, right_border=2.0, num_variables=2, random_state=seed,
-                            F_min=fmin, F_max=fmax, t_F=tF, t_CR=tCR)
+                            F_min=fmin, F_max=fmax, t_F=tF, t_CR=tCR, minimization=mini)
             if kind in ("SHADE", "SHAGA"):
                 orig_gen = getattr(opt, genname)
 
